@@ -287,6 +287,8 @@ def r3(c):
     some = [e for e, v in opt if v == 'Some']
     ag_none = [(i, s) for i, s in hc.aggregates(AT) if s['rv']['variant'] == 'None']
     ag_h = [(i, s) for i, s in hc.aggregates(AT) if s['rv']['variant'] == 'Handler']
+    c.ob('role-only-with-handler', bool(some) and q.dominated_by_any(hc, some, cp.node) and q.dominated_by_any(hc, some, er.node),
+         'the peer certificate is parsed and a role demanded only when an authorization handler is configured (bare TLS admits every peer the handshake admitted)', '', er.loc())
     c.ob('authz-mode', len(ag_none) == 1 and len(ag_h) == 1 and q.dominated_by_any(hc, none, ('b', ag_none[0][0])) and q.dominated_by_any(hc, some, ('b', ag_h[0][0])) and
          q.dominated_by_any(hc, q.outcomes(hc, er).get('success', []), ('b', ag_h[0][0])),
          'with an authorization handler a session exists only with a (checked) role; without one AuthorizationType::None', '', loc_of(hc))
